@@ -126,7 +126,7 @@ JOBS += [
          timeout=240, wip=False, **B08),
     dict(name='c08_dict_decode_int32_hugecount', props=['C08'], entry='h_dict_decode_int32', defines=['CQV_HUGE=1', 'CQV_RLE_STUB_FRESH_OUTPUT=1'],
          enforce='carquet_dictionary_decode_int32', min_loop_obligations=1, timeout=240, wip=True,
-         note='FINDING: malloc(output_count * sizeof(uint32_t)) wraps for output_count >= 2^62: undersized index buffer handed to carquet_rle_decode_all',
+         note='kept wip: after fix 47bec3f the remaining failure is the harness, not the code: for counts whose output object exceeds 2^40 bytes no caller-supplied object can be modelled (assumption A2), so output[i] is checked against an arbitrary object',
          **{k: v for k, v in D08.items() if k != 'defines'}),
 ]
 
